@@ -179,6 +179,20 @@ def float_mode(chk: Check, n):
                      dict(control=cc, treatment=ct, ratio=r, observed=float(got), auto=float(got_auto),
                           expected=float(e)))
     chk.cov["float_binom_worst_rel_err"] = worst
+    # very large counts with the exact test REQUESTED: still the exact binomial p-value (scipy's own binomtest is the
+    # oracle here; the Lean oracle covers n < 400)
+    for cc, ct, r in ((1999000, 201000, 0.1), (1001500, 998500, 1), (300000, 302000, 1), (4000000, 1002500, 0.25)):
+        chk.case(("float-binom-large", cc, ct, r), nontrivial=False)
+        chk.branch("float:binom-large-n")
+        try:
+            got = tt.SampleRatio(r, method="binom").analyze({0: A(cc), 1: A(ct)}, 0, 1).pvalue
+        except Exception as ex:  # noqa: BLE001
+            chk.fail("SampleRatio(method='binom') raised on large counts", dict(control=cc, treatment=ct, ratio=r, error=repr(ex)))
+            continue
+        want = st.binomtest(ct, cc + ct, r / (1 + r)).pvalue
+        if abs(got - want) > 1e-9 * max(want, 1e-300):
+            chk.fail("method='binom' does not give the exact binomial p-value for large counts",
+                     dict(control=cc, treatment=ct, ratio=r, observed=float(got), expected=float(want)))
     # relations on the real code: swap + inverse ratio, scalar vs mapping, switch at 1000
     for i in range(n):
         cc, ct = rng.randint(1, 4000), rng.randint(1, 4000)
